@@ -183,3 +183,27 @@ for _p, _sc in (("C02", "regs"), ("C04", "once"), ("C06", "waiters"), ("C07", "s
 PROPS["C06"]["parts"].append(dict(name="shutdown06", domain="shutdown", domain_module="shutdown", gen=shutdown.gen, n_quick=40, n_thorough=1500, chunk=8, jobs=8))
 PROPS["C06"]["level_note"] = PROPS["C06"]["level_note"].replace("Shutdown (nil only after Wait, store closed only then, ctx error ⇒ store not closed) is not in the model: not claimed by a theorem, covered by no correspondence yet – PARTIAL for the Shutdown sentence of the property.",
     "Shutdown is a separate small model (M2s: nil/close-error only with nothing in flight and exactly one Close; context error ⇒ no Close; blocks iff work in flight and context live), tied by a harness that holds async handlers at a gate and waits 60 ms to call a Shutdown 'blocked' (timing based; the case where both select branches are ready is excluded because Go picks at random).")
+
+# what the parts added after the second and third rounds of seeded changes exercise (appended to the evidence's rule text)
+_EXTRA_RULE = {
+ "C02": " + stress/regs: real concurrency, 8 handlers, overlapping Unsubscribes of a random subset while two publishers publish, judged at quiescence (count, exactly-once for kept handlers, nothing for removed ones); two conc types share a registry shard, Clear of an unsubscribed colliding type; option values shared between subscriptions",
+ "C03": " + stress/waiters (several goroutines in Wait at once, nested async publishes) + pubstore03 (publish, also from inside a Replay callback, through a bus over the real memory/SQLite/durable-streams stores: must not block) + racestress with three concurrent waiters",
+ "C04": " + stress/once: publishers racing for one Once handler under every Async/Sequential/filter mix, incl. 400 x 16-publisher rounds on Once+Async+Sequential",
+ "C06": " + bus06 (sequential machine, mostly Async handlers on persistent buses with persistence timeout, sometimes the OpenTelemetry adapter) + stress/waiters",
+ "C07": " + bus07 (mostly Sequential handlers, panicking bodies) + stress/seq (no overlap, exactly once, per-publisher order under real Async dispatch, one invocation panics)",
+ "C08": " + the OpenTelemetry adapter as Observability in half of the cases with observability + stress/hooks (overlapping publishes and a before-hook that publishes: every hook exactly once per publish)",
+ "C09": " + pubstore09 (bus over the three REAL stores, persistence timeout set, options in either order, publish and publish-from-a-Replay-callback, the handler reads the log) + racepub09 (real concurrent publishers)",
+ "C12": " + a store without ReadStream that pages by two + an event type with a pointer-receiver EventTypeName published by value + racepub12 (saved offset never decreases under real concurrent publishers)",
+ "C13": " + flaky13: the real durable-streams store behind a gateway that loses the acknowledgement of an append the server has stored (one report, no second attempt, the publish still delivers)",
+ "C14": " + concappend (concurrent appenders on one handle, close, reopen: every acknowledged event at its acknowledged offset) + saveretry (a failed SaveOffset retried with the same offset reaches the database)",
+ "C10": " + limits up to MaxInt64, instances closed and re-created out of order, every operation under its own context cancelled on return, zone offsets with a seconds part, numeric-looking type names",
+ "C11": " + Replay on a bus that has published itself after others appended behind its back, a second Replay started from the callback of the first",
+ "C16": " + rings of raw upcasters returning each other's sources over an acyclic registered graph + chains whose first step races a ClearUpcasts",
+ "C17": " + upcasters racing a ClearUpcasts against their own chain + the same stored event object replayed again after the registry changed",
+ "C18": " ; every write of value index v writes one canonical entity (omitempty slices, nested pointers, maps with value-dependent keys, a field with a pointer-receiver JSON codec) and the dump checks deep equality with it",
+ "C05": " + panic values whose Error()/String() panic (typed nil error), SetPanicHandler between publishes, a nil subscribe option, option values shared between subscriptions",
+ "C01": " + 46 types hitting all 32 shards (first/last shard favoured), an event type that is json.RawMessage itself and one published as a pointer, once handlers whose body swaps a registration of their own type, nil subscribe option",
+}
+for _p, _t in _EXTRA_RULE.items():
+    PROPS[_p]["rule"] = (PROPS[_p].get("rule") or "") + _t
+PROPS["C19"]["rule"] = PROPS["C19"]["rule"] + _EXTRA_RULE["C18"]
